@@ -275,7 +275,7 @@ func (p *PolicyManager) policyResult(np *networkv1.NetworkPolicy) (*ingressRule,
 		inRules = &ingressRule{dstIPTable: tbl}
 		for i := range np.Spec.Ingress {
 			ir := np.Spec.Ingress[i]
-			rule := p.peerRule(ir.Ports, ir.From)
+			rule := p.namespacedPeerRule(np.Namespace, ir.Ports, ir.From)
 			if rule.ipTable != nil {
 				rule.ipTable.Name = fmt.Sprintf("%s-sip-%d-%s", NamePrefix, i, npNameHash)
 			}
@@ -289,7 +289,7 @@ func (p *PolicyManager) policyResult(np *networkv1.NetworkPolicy) (*ingressRule,
 		eRules = &egressRule{srcIPTable: tbl}
 		for i := range np.Spec.Egress {
 			ir := np.Spec.Egress[i]
-			rule := p.peerRule(ir.Ports, ir.To)
+			rule := p.namespacedPeerRule(np.Namespace, ir.Ports, ir.To)
 			if rule.ipTable != nil {
 				rule.ipTable.Name = fmt.Sprintf("%s-dip-%d-%s", NamePrefix, i, npNameHash)
 			}
@@ -317,11 +317,18 @@ func ingressOrEgress(np *networkv1.NetworkPolicy) (ingress bool, egress bool) {
 	return
 }
 
+// peerRule resolves peers regardless of namespaces
 func (p *PolicyManager) peerRule(ports []networkv1.NetworkPolicyPort, peers []networkv1.NetworkPolicyPeer) *rule {
+	return p.namespacedPeerRule(v1.NamespaceAll, ports, peers)
+}
+
+// namespacedPeerRule resolves peers of a policy in namespace
+func (p *PolicyManager) namespacedPeerRule(namespace string, ports []networkv1.NetworkPolicyPort,
+	peers []networkv1.NetworkPolicyPeer) *rule {
 	tcpPorts, udpPorts := rulePorts(ports)
 	rule := rule{tcpPorts: tcpPorts, udpPorts: udpPorts, allPeers: len(peers) == 0}
 	for j := range peers {
-		tbl, err := p.peerTable(&peers[j])
+		tbl, err := p.peerTable(&peers[j], namespace)
 		if err != nil {
 			glog.Warningf("failed to resolve peer ipset %s, %v", peers[j].String(), err)
 			continue
@@ -381,9 +388,27 @@ func (p *PolicyManager) namespaceSelectorToTable(namespaceSelector *v1.LabelSele
 	return &ipsetTable{IPSet: ipset.IPSet{SetType: ipset.HashIP}, entries: entries(pods, ipset.HashIP)}, nil
 }
 
-func (p *PolicyManager) peerTable(peer *networkv1.NetworkPolicyPeer) (*ipsetTable, error) {
+// peerTable resolves a peer of a policy in namespace
+func (p *PolicyManager) peerTable(peer *networkv1.NetworkPolicyPeer, namespace string) (*ipsetTable, error) {
 	if peer.PodSelector != nil {
-		return p.podSelectorToTable(peer.PodSelector, v1.NamespaceAll)
+		if peer.NamespaceSelector == nil {
+			// a podSelector alone selects pods in the policy's own namespace
+			return p.podSelectorToTable(peer.PodSelector, namespace)
+		}
+		// both selectors select pods matching podSelector in the namespaces matching namespaceSelector
+		namespaces, err := p.getNamespaces(peer.NamespaceSelector)
+		if err != nil {
+			return nil, err
+		}
+		tbl := &ipsetTable{IPSet: ipset.IPSet{SetType: ipset.HashIP}}
+		for i := range namespaces {
+			nsTbl, err := p.podSelectorToTable(peer.PodSelector, namespaces[i].Name)
+			if err != nil {
+				return nil, err
+			}
+			tbl.entries = append(tbl.entries, nsTbl.entries...)
+		}
+		return tbl, nil
 	}
 	if peer.NamespaceSelector != nil {
 		return p.namespaceSelectorToTable(peer.NamespaceSelector)
@@ -808,7 +833,8 @@ func (p *PolicyManager) syncIngressInIPSet(policy *policy, pod *corev1.Pod, add 
 						policy.np.Spec.PodSelector.String(), err)
 					continue
 				}
-				if peerPodLabelSelector.Matches(labels.Set(pod.Labels)) {
+				if peerPodLabelSelector.Matches(labels.Set(pod.Labels)) &&
+					p.inPeerNamespaces(&peer, policy.np.Namespace, pod) {
 					p.addOrDelIPSetEntry(add, &policy.ingressRule.srcRules[i].ipTable.IPSet, pod.Status.PodIP)
 				}
 			} else if peer.NamespaceSelector != nil {
@@ -828,6 +854,26 @@ func (p *PolicyManager) syncIngressInIPSet(policy *policy, pod *corev1.Pod, add 
 	}
 }
 
+// inPeerNamespaces checks if pod is in one of the namespaces which a peer with podSelector selects pods from,
+// i.e. the policy's namespace or the namespaces matching namespaceSelector if the peer has one
+func (p *PolicyManager) inPeerNamespaces(peer *networkv1.NetworkPolicyPeer, policyNamespace string,
+	pod *corev1.Pod) bool {
+	if peer.NamespaceSelector == nil {
+		return pod.Namespace == policyNamespace
+	}
+	namespaces, err := p.getNamespaces(peer.NamespaceSelector)
+	if err != nil {
+		glog.Warning(err)
+		return false
+	}
+	for _, ns := range namespaces {
+		if ns.Name == pod.Namespace {
+			return true
+		}
+	}
+	return false
+}
+
 // #lizard forgives
 func (p *PolicyManager) syncEgressInIPSet(policy *policy, pod *corev1.Pod, add bool) {
 	if policy.egressRule == nil {
@@ -843,7 +889,8 @@ func (p *PolicyManager) syncEgressInIPSet(policy *policy, pod *corev1.Pod, add b
 						policy.np.Spec.PodSelector.String(), err)
 					continue
 				}
-				if peerPodLabelSelector.Matches(labels.Set(pod.Labels)) {
+				if peerPodLabelSelector.Matches(labels.Set(pod.Labels)) &&
+					p.inPeerNamespaces(&peer, policy.np.Namespace, pod) {
 					p.addOrDelIPSetEntry(add, &policy.egressRule.dstRules[i].ipTable.IPSet, pod.Status.PodIP)
 				}
 			} else if peer.NamespaceSelector != nil {
